@@ -147,7 +147,13 @@ def run_case(case, watchdog=60.0):
         project = projbuild.build_project(rec, case["project"], tmp)
         lcc_runner.build_tasks = build_tasks
         try:
-            prepared = PreparedProject.create(project)
+            if case.get("exclude_tests"):
+                from lemoncheesecake.testtree import filter_suites
+                excl = set(case["exclude_tests"])
+                scheduled = filter_suites(project.load_suites(), lambda t: t.path not in excl)
+                prepared = PreparedProject.create(project, scheduled)
+            else:
+                prepared = PreparedProject.create(project)
         except Exception as e:
             out["outcome"] = ["rejected", type(e).__name__, str(e)[:300]]
             return out
@@ -226,12 +232,16 @@ def run_case(case, watchdog=60.0):
             out["report"] = report_nf(report, names)
         if session is not None:
             out["failures"] = sorted(str(l) for l in session._failures)
-        files = {}
+        files, attachments = {}, {}
         for root, _, fs in os.walk(tmp):
             for f in fs:
                 p = os.path.join(root, f)
-                files[os.path.relpath(p, tmp)] = os.path.getsize(p)
+                rel = os.path.relpath(p, tmp)
+                files[rel] = os.path.getsize(p)
+                if rel.startswith("attachments" + os.sep) and files[rel] < 4096:
+                    attachments[rel] = open(p, errors="replace").read()
         out["files"] = files
+        out["attachments"] = attachments
         return out
     finally:
         lcc_runner.build_tasks = orig_build
